@@ -57,6 +57,8 @@ type Case struct {
 	// subscribe
 	Prefix string `json:"prefix"`
 	Msgs   []Msg  `json:"msgs"`
+	// shape (C12)
+	Shape Shape `json:"shape"`
 }
 
 type Sent struct {
@@ -324,6 +326,19 @@ func runSubscribe(w *world.World, c Case, o *Out) {
 	sort.Strings(o.Relayed)
 }
 
+// populate gives target t1 a stored configuration (through the real pipeline).
+func populate(w *world.World) error {
+	w.Trace = &world.Trace{}
+	for _, st := range []world.Step{{K: "connup", T: "t1", Conn: "c1"}, {K: "drain"},
+		{K: "set", H: "pop1", Ch: map[string]map[string]string{"t1": {"/a/b": "v1", "/ab": "v2", "/l[k=1]/x": "v3", "/m[j=2][k=1]/x": "v4"}}}, {K: "drain"}} {
+		if err := w.Step(st); err != nil {
+			return err
+		}
+	}
+	w.AbandonHandlers()
+	return nil
+}
+
 func main() {
 	in := flag.String("in", "", "ndjson cases")
 	outp := flag.String("out", "", "ndjson observations")
@@ -346,6 +361,7 @@ func main() {
 	}
 	dec := json.NewDecoder(f)
 	n := 0
+	populated := false
 	for dec.More() {
 		var raw json.RawMessage
 		if err := dec.Decode(&raw); err != nil {
@@ -428,6 +444,15 @@ func main() {
 			_ = os.Unsetenv("OIDC_SERVER_URL")
 		case "subscribe":
 			runSubscribe(w, c, &o)
+		case "shape":
+			if c.Shape.Populated && !populated {
+				if err := populate(w); err != nil {
+					fmt.Fprintln(os.Stderr, "nbrun: populate:", err)
+					os.Exit(2)
+				}
+				populated = true
+			}
+			err = runShape(w, n, c.Shape, &o)
 		default:
 			err = fmt.Errorf("unknown case kind %q", c.Kind)
 		}
